@@ -33,6 +33,11 @@ def variants(sch):
         for pre in (True, False):
             V.append((f'unified:{var}:{"precomputed" if pre else "adaptive"}', lambda A, mi, tol, var=var, pre=pre: sch.quaternion_schur_unified(A, variant=var, max_iter=mi, tol=tol, precompute_shifts=pre, return_diagnostics=True),
                       lambda n, tol, mi, Al, sc, ev, var=var, pre=pre: f'schur_unified FxOps {n} {dl(tol)} {dl(3.0)} {blit(var == "ds")} 1 {mi} {dlist(sc if pre else [])} [{"; ".join(dlist(e) for e in ev)}] (fof {Al})', '3tol'))
+    # the trailing-window option of the AED sweep (default None = whole matrix): only the last `aed_window` sub-diagonals are inspected
+    for var in ('aed', 'ds'):
+        for w in (2, 3):
+            V.append((f'unified:{var}:precomputed:aed_window{w}', lambda A, mi, tol, var=var, w=w: sch.quaternion_schur_unified(A, variant=var, max_iter=mi, tol=tol, precompute_shifts=True, aed_window=w, return_diagnostics=True),
+                      lambda n, tol, mi, Al, sc, ev, var=var, w=w: f'schur_unified FxOps {n} {dl(tol)} {dl(3.0)} {blit(var == "ds")} {max(1, n - w + 1)} {mi} {dlist(sc)} [{"; ".join(dlist(e) for e in ev)}] (fof {Al})', '3tol'))
     for var in ('aed_windowed', 'francis_ds'):
         for win in (12, 2):
             V.append((f'experimental:{var}:window{win}', lambda A, mi, tol, var=var, win=win: sch.quaternion_schur_experimental(A, variant=var, max_iter=mi, tol=tol, window=win, return_diagnostics=True),
